@@ -1,5 +1,5 @@
 SPECIFICATION Spec
 CONSTANTS
-  MaxTokens = 12
-  Plan <- NoPlan
+  MaxTokens = 4
+  Plan <- Plan4
 CHECK_DEADLOCK FALSE
